@@ -149,7 +149,9 @@ func (n *Node) verifyPayload(kind string) func(p dbft.ConsensusPayload[H]) error
 	return func(p dbft.ConsensusPayload[H]) error {
 		q := p.(*Payload)
 		ok := n.RejectPayload == nil || !n.RejectPayload(q)
-		if ok && (kind == "Commit" || kind == "PreCommit") && n.D.RequestSentOrReceived() && q.V == n.D.ViewNumber {
+		// "early" = stored at a moment when the library cannot build the header to verify against
+		// (no proposal stored yet, or the application's NewBlockFromContext yields no block)
+		if ok && (kind == "Commit" || kind == "PreCommit") && n.D.RequestSentOrReceived() && q.V == n.D.ViewNumber && !n.NilBlock {
 			n.notEarly[q.Key()] = true
 		}
 		r := q.Rec()
